@@ -17,6 +17,7 @@
  */
 #define _GNU_SOURCE
 #include <dirent.h>
+#include <sys/uio.h>
 #include <dlfcn.h>
 #include <errno.h>
 #include <fcntl.h>
@@ -161,6 +162,14 @@ static int (*real_open)(const char *, int, ...);
 static size_t (*real_fread)(void *, size_t, size_t, FILE *);
 static size_t (*real_fwrite)(const void *, size_t, size_t, FILE *);
 static ssize_t (*real_write)(int, const void *, size_t);
+static int (*real_fputs)(const char *, FILE *);
+static int (*real_fclose)(FILE *);
+static int (*real_rename)(const char *, const char *);
+static int (*real_unlink)(const char *);
+static int (*real_close)(int);
+static int (*real_stat)(const char *, struct stat *);
+static ssize_t (*real_writev)(int, const struct iovec *, int);
+static ssize_t (*real_pwrite)(int, const void *, size_t, off_t);
 
 __attribute__((constructor)) static void
 resolve(void)
@@ -174,6 +183,14 @@ resolve(void)
 	real_fread = dlsym(RTLD_NEXT, "fread");
 	real_fwrite = dlsym(RTLD_NEXT, "fwrite");
 	real_write = dlsym(RTLD_NEXT, "write");
+	real_fputs = dlsym(RTLD_NEXT, "fputs");
+	real_fclose = dlsym(RTLD_NEXT, "fclose");
+	real_rename = dlsym(RTLD_NEXT, "rename");
+	real_unlink = dlsym(RTLD_NEXT, "unlink");
+	real_close = dlsym(RTLD_NEXT, "close");
+	real_stat = dlsym(RTLD_NEXT, "stat");
+	real_writev = dlsym(RTLD_NEXT, "writev");
+	real_pwrite = dlsym(RTLD_NEXT, "pwrite");
 }
 
 /* the flush of a thread's staging buffer: other threads may run while it is written */
@@ -184,6 +201,16 @@ ssize_t write(int fd, const void *b, size_t n) { sched_point(); return real_writ
 size_t fread(void *b, size_t s, size_t n, FILE *f) { sched_point(); return real_fread(b, s, n, f); }
 size_t fwrite(const void *b, size_t s, size_t n, FILE *f) { sched_point(); return real_fwrite(b, s, n, f); }
 
+/* every other call by which the library touches a file another thread may be touching too (metadata written through
+ * stdio, files renamed, removed, examined or closed) */
+int fputs(const char *t, FILE *f) { sched_point(); return real_fputs(t, f); }
+int fclose(FILE *f) { sched_point(); return real_fclose(f); }
+int rename(const char *a, const char *b) { sched_point(); return real_rename(a, b); }
+int unlink(const char *p) { sched_point(); return real_unlink(p); }
+int close(int fd) { sched_point(); return real_close(fd); }
+int stat(const char *p, struct stat *st) { sched_point(); return real_stat(p, st); }
+ssize_t writev(int fd, const struct iovec *v, int n) { sched_point(); return real_writev(fd, v, n); }
+ssize_t pwrite(int fd, const void *b, size_t n, off_t o) { sched_point(); return real_pwrite(fd, b, n, o); }
 int mkdir(const char *p, mode_t m) { sched_point(); return real_mkdir(p, m); }
 int rmdir(const char *p) { sched_point(); return real_rmdir(p); }
 int remove(const char *p) { sched_point(); return real_remove(p); }
